@@ -23,7 +23,7 @@
   (6) snappy_roundtrip
   (7) lz4_roundtrip_prepended / lz4_roundtrip_block   matching prepend flags; every buf_size
       lz4_roundtrip_prepended is partial: false when the length equals the frame magic
-      (lz4_magic_collision), class D_lz4_size_is_magic
+      (lz4_magic_collision), class D_lz4_size_is_magic; lz4_frame_dispatch: frames are recognised
   (8) charset_roundtrip       every label: both directions resolve the label with the same function
   (9) punycode_roundtrip_*    validate true/true, false/false and the mixed combinations
 -/
@@ -241,6 +241,14 @@ theorem lz4_magic_collision (P : Lz4.Prim) (b : Bytes) (bufSize : Int) (pre : Bo
     rw [P.prependShape b hle]
     exact (le32_isPrefix_magic _ hle _).mpr hlen
   simp [Lz4.encode, Lz4.decode, hm]
+
+/-- data that starts with the frame magic always goes to the frame decoder (whatever
+    `prepended_size` says); vrl has no frame *encoder*, so there is no frame round trip to state —
+    the oracle samples `decode_lz4` on frames made by lz4_flex's `FrameEncoder` (`o.c22 lz4frame`). -/
+theorem lz4_frame_dispatch (P : Lz4.Prim) (rest : Bytes) (bufSize : Int) (pre : Bool) :
+    Lz4.decode P (Lz4.magic ++ rest) bufSize pre =
+      P.frameDecode (Lz4.magic ++ rest) (Lz4.bufferSize bufSize) := by
+  simp [Lz4.decode, Lz4.magic, List.isPrefixOf]
 
 /-! ### (8) charset -/
 
